@@ -2,6 +2,7 @@ import SamVerif.Lemmas.Useful
 import SamVerif.Lemmas.UsefulTerm
 import SamVerif.Lemmas.UsefulNorm
 import SamVerif.Lemmas.UsefulSem
+import SamVerif.Generated.C07Tuples
 /-!
 # C07 — Exhaustiveness and usefulness analysis of patterns is exact
 
@@ -820,6 +821,18 @@ theorem checker_iflet_decided (sig : Sig) (cx : Cx) (hcx : CxOk sig cx) (hinh : 
       (u = false ↔ ∀ v, hasTy sig v t = true → smatch sig src t v = true) := by
   obtain ⟨n, u, h1, h2⟩ := checker_iflet_exact_src sig cx hcx hinh src t hwf
   exact ⟨u, isAdditionalPatternUseful_eq cx _ _ n u h1, h2⟩
+
+/-! ### Tuples of every size: the declarations in std/tuples.sam (data the checker reads)
+
+A tuple pattern of size N is resolved against the declared fields of the std class for that size;
+the model treats an N-tuple as a struct whose field `k` has the type of component `k`.  That is what
+the standard library says, for every size the language has (`Generated/C07Tuples.lean` is
+regenerated from /repo's current std/tuples.sam by `extract/c07_tuples.py` on every run): -/
+theorem std_tuples_fields :
+    (SamVerif.Generated.C07Tuples.table.map (·.1)) = (List.range 15).map (· + 2) ∧
+    ∀ e ∈ SamVerif.Generated.C07Tuples.table,
+      e.2.1 = e.1 ∧ e.2.2 = (List.range e.1).map (fun i => (i, i)) := by
+  decide
 
 /-! ### Which declaration the scrutinee's type parameter resolves to (innermost binder) -/
 
